@@ -197,7 +197,11 @@ impl WTClient {
     /// Sets the tower status to any of the `TowerStatus` variants.
     pub fn set_tower_status(&mut self, tower_id: TowerId, status: TowerStatus) {
         if let Some(tower) = self.towers.get_mut(&tower_id) {
-            if tower.status != status {
+            if tower.status.is_misbehaving() && !status.is_misbehaving() {
+                // The proof of a misbehaving tower is kept for good (see `flag_misbehaving_tower`), so is the flag. Otherwise a
+                // failed request (e.g. a connection error on `registertower`) would make the client start sending to it again.
+                log::warn!("{tower_id} is flagged as misbehaving. Cannot change its status to {status}")
+            } else if tower.status != status {
                 tower.status = status
             } else {
                 log::debug!("{tower_id} status is already {status}")
